@@ -50,7 +50,7 @@ def BOUNDS(tier):
 
 def REQUIRED_COVER(tier):
     return {'generic:accept', 'generic:boc', 'generic:nested', 'header:accept', 'account:accept', 'account:extra-currency', 'account:pruned-account', 'mut:expected-hash', 'mut:data-bit',
-            'mut:drop-ref', 'mut:dup-ref', 'mut:swap-ref', 'mut:pruned-hash', 'mut:pruned-depth', 'mut:pruned-level', 'mut:pruned-raw', 'mut:stored-hashes', 'mut:root-type', 'mut:root-hash', 'mut:claimed-pruned', 'mut:claimed-partly-pruned', 'mut:claimed-other',
+            'mut:drop-ref', 'mut:dup-ref', 'mut:swap-ref', 'mut:pruned-hash', 'mut:pruned-depth', 'mut:pruned-level', 'mut:pruned-raw', 'mut:stored-hashes', 'mut:root-type', 'mut:root-hash', 'mut:claimed-pruned', 'mut:claimed-partly-pruned', 'mut:unproven-account', 'mut:claimed-other',
             'mut:claimed-flip', 'mut:address', 'mut:block-id', 'mut:roots', 'mut:state-bit', 'mut:block-bit'}
 
 
@@ -674,6 +674,11 @@ def account_case(rec, ks, extra_mask, keep_account):
             if other != target:
                 rej('mut:claimed-other', f'claimed state is account #{oi}', lambda other=other: check_account_proof(boc, bid, addr(target), to_lib(info[other][0], {})))
                 rej('mut:address', f'address of account #{oi} (its leaf is pruned in this proof)', lambda other=other: check_account_proof(boc, bid, addr(other), lacc))
+                # ... also when the claimed state IS that account's state and an earlier call in this process (another proof of the same state) did reach
+                # its leaf: this proof does not prove it (wave 10: an accumulator of parsed leaves that outlives the call)
+                rej('mut:unproven-account', f'address AND true state of account #{oi}, whose leaf is pruned in this proof',
+                    lambda other=other: check_account_proof(boc, bid, addr(other), to_lib(info[other][0], {})))
+                rec.covered('mut:unproven-account')
                 # an account whose path is cut by a pruned branch is not "absent": nothing can be claimed about it from this proof
                 rej('mut:claimed-empty', f'empty cell claimed for account #{oi}, which exists behind a pruned branch of this proof',
                     lambda other=other: check_account_proof(boc, bid, addr(other), Cell.empty()))
